@@ -1621,7 +1621,7 @@ fn exhaust_configs(prop: &str, rng: &mut Rng, thorough: bool) -> Vec<(String, Ca
     // (threads, chunk, len): quick ≈ 120 … 5 000 schedules each
     let mut cfgs: Vec<(usize, usize, usize)> = vec![(2, 1, 4), (2, 2, 5), (3, 1, 3), (3, 2, 4)];
     if thorough {
-        cfgs.extend([(3, 1, 4), (3, 1, 5), (3, 2, 6), (4, 1, 3), (4, 2, 4), (2, 1, 7), (2, 3, 8)]);
+        cfgs.extend([(3, 1, 4), (3, 1, 5), (3, 2, 6), (4, 1, 3), (2, 1, 7)]);
     }
     let canary = matches!(prop, "C13" | "C14");
     let kinds_src: &[char] = if canary { &['V', 'K', 'U'] } else { &['v', 'k', 'u'] };
@@ -1633,6 +1633,10 @@ fn exhaust_configs(prop: &str, rng: &mut Rng, thorough: bool) -> Vec<(String, Ca
             // chunk-size-1 and the chunked code path); thorough: all
             i += 1;
             if !thorough && !(q == j % 2 || q == 2 + (j + 1) % 2) {
+                continue;
+            }
+            // thorough: the larger spaces for the first three shapes only (≈ 15 000 schedules each)
+            if thorough && q >= 4 && j >= 3 {
                 continue;
             }
             if (term.needs_concrete() || !is_core_terminal(term)) && kinds.len() > 1 {
@@ -1656,7 +1660,7 @@ fn exhaust_configs(prop: &str, rng: &mut Rng, thorough: bool) -> Vec<(String, Ca
                 }
                 c.panic_at = Some(*rng.pick(&cand));
             }
-            v.push(("exhaustive".to_string(), c, if thorough { 400_000 } else { 20_000 }));
+            v.push(("exhaustive".to_string(), c, if thorough { 25_000 } else { 20_000 }));
         }
     }
     v
